@@ -48,6 +48,7 @@ type replayFile struct {
 	Observed    string            `json:"observed,omitempty"`
 	Confirmed   bool              `json:"confirmed_on_real_code"`
 	NoInput     bool              `json:"no_failing_input_found"`
+	Bounded     bool              `json:"found_by_bounded_search,omitempty"`
 	Explanation string            `json:"explanation"`
 }
 
@@ -256,6 +257,19 @@ func (e *Engine) replay(o *Obligation, prop, dir, repo string) (string, bool) {
 		Status: o.Status, Solver: o.Solver, Outputs: o.Outputs}
 	confirmed := false
 	defer func() {
+		if !confirmed && o.ctx != nil && (o.Kind == "post" || o.Kind == "step" || o.Kind == "init" || o.Kind == "assert" || o.Kind == "exit") {
+			// no replayable model: look for a failing input among a fixed pool
+			// of small ones (bounded; see search.go)
+			if h := e.boundedSearch(o.ctx, prop, repo); h != nil {
+				confirmed = true
+				rf.Model = h.Model
+				rf.TestSource = h.Source
+				rf.Command = h.Cmd
+				rf.Observed = h.Obs
+				rf.Explanation = h.Why
+				rf.Bounded = true
+			}
+		}
 		rf.Confirmed = confirmed
 		rf.NoInput = !confirmed
 		writeJSON(path, rf)
@@ -415,25 +429,39 @@ func runOverlayTest(repo, work, src string) (string, string, error) {
 // observed results: the clause is translated with the header names bound to
 // literals and the solver decides the resulting closed formula.
 func (e *Engine) evalClauseConcrete(c *FuncCtx, cl *Clause, model map[string]string, results []json.RawMessage, work string) (bool, string) {
+	val, why := e.clauseValue(c, cl, model, results, work)
+	switch val {
+	case "false":
+		return true, "the failed clause is FALSE on the results the real function returned for this input (" + why + ")"
+	case "true":
+		return false, "the clause HOLDS on the results the real function returned for the model's input: the counterexample lives in the abstraction (imprecise contract of a callee or library function)"
+	}
+	return false, why
+}
+
+// clauseValue evaluates a requires/ensures clause on concrete arguments (and
+// results, for a postcondition): the clause is translated with the header
+// names bound to literals.  "false" means the clause is unsatisfiable as it
+// stands - false under EVERY interpretation of the uninterpreted library
+// functions it may mention - and "true" that its negation is; anything else is
+// "unknown".
+func (e *Engine) clauseValue(c *FuncCtx, cl *Clause, model map[string]string, results []json.RawMessage, work string) (string, string) {
 	fn := e.info.Defs[c.decl.Name].(*types.Func)
 	sig := fn.Type().(*types.Signature)
 	sc := &FuncCtx{eng: e, key: c.key + "$replay", decl: c.decl, contract: c.contract, heapLocals: map[*types.Var]bool{}, mapOwned: map[*types.Var]bool{}, params: map[*types.Var]bool{}}
 	st := &State{vars: map[*types.Var]*Val{}, heap: map[string]string{}, bound: map[string]*Val{}, facts: map[string]bool{}}
 	env := map[string]*Val{}
-	var why string
-	failed := false
+	val, why := "unknown", "the solvers could not evaluate the clause on the concrete values"
 	func() {
 		defer func() {
 			if r := recover(); r != nil {
 				if el, ok := r.(engineLimit); ok {
-					why = "clause could not be evaluated on concrete values: " + el.msg
-					failed = true
+					val, why = "unknown", "clause could not be evaluated on concrete values: "+el.msg
 					return
 				}
 				panic(r)
 			}
 		}()
-		// arguments
 		var args []*Val
 		for _, p := range c.paramList {
 			v, ok := e.concreteFromGo(sc, model[p.Name], p.T)
@@ -445,17 +473,19 @@ func (e *Engine) evalClauseConcrete(c *FuncCtx, cl *Clause, model map[string]str
 		for k, v := range bindHeader(c.contract, nil, args) {
 			env[k] = v
 		}
-		names := headerResults(c.contract)
-		for i := 0; i < sig.Results().Len(); i++ {
-			v, ok := e.concreteFromJSON(sc, results[i], sig.Results().At(i).Type())
-			if !ok {
-				limitf("result %d", i)
-			}
-			if i < len(names) && names[i] != "" {
-				env[names[i]] = v
-			}
-			if sig.Results().Len() == 1 {
-				env["$result"] = v
+		if results != nil {
+			names := headerResults(c.contract)
+			for i := 0; i < sig.Results().Len(); i++ {
+				v, ok := e.concreteFromJSON(sc, results[i], sig.Results().At(i).Type())
+				if !ok {
+					limitf("result %d", i)
+				}
+				if i < len(names) && names[i] != "" {
+					env[names[i]] = v
+				}
+				if sig.Results().Len() == 1 {
+					env["$result"] = v
+				}
 			}
 		}
 		for _, l := range c.contract.clauses("let") {
@@ -469,27 +499,44 @@ func (e *Engine) evalClauseConcrete(c *FuncCtx, cl *Clause, model map[string]str
 			st.bound = saved
 		}
 		v := sc.evalSpecAt(st, cl.Expr, c.decl.Body.Rbrace, env)
-		o := &Obligation{Fn: sc.key, Name: "replay", Kind: "post", PC: st.pc, Goal: v.S, ctx: sc}
-		q := e.buildQuery(o, false)
-		file := filepath.Join(work, "replay-clause.smt2")
-		os.WriteFile(file, []byte(q), 0o644)
-		for _, sp := range solvers {
-			r := runSolver(context.Background(), sp, 20, file)
-			if r.status == "sat" {
-				why = "the failed clause is FALSE on the results the real function returned for the model's input (decided by " + r.solver + ")"
-				failed = false
-				return
+		decide := func(goal string) string {
+			o := &Obligation{Fn: sc.key, Name: "replay", Kind: "post", PC: st.pc, Goal: goal, ctx: sc}
+			q := e.buildQuery(o, false)
+			file := filepath.Join(work, "replay-clause.smt2")
+			os.WriteFile(file, []byte(q), 0o644)
+			for _, sp := range solvers {
+				r := runSolver(context.Background(), sp, 10, file)
+				if r.status == "unsat" {
+					return r.solver
+				}
+				if r.status == "sat" {
+					return ""
+				}
 			}
-			if r.status == "unsat" {
-				why = "the clause HOLDS on the results the real function returned for the model's input: the counterexample lives in the abstraction (imprecise contract of a callee or library function)"
-				failed = true
-				return
-			}
+			return ""
 		}
-		why = "the solvers could not evaluate the clause on the concrete results"
-		failed = true
+		// buildQuery asserts the negation of the goal
+		if s := decide(mkNot(v.S)); s != "" {
+			val, why = "false", "decided by "+s
+			return
+		}
+		if s := decide(v.S); s != "" {
+			val, why = "true", "decided by "+s
+			return
+		}
 	}()
-	return !failed && strings.HasPrefix(why, "the failed clause is FALSE"), why
+	return val, why
+}
+
+// preconditionsHold: every requires clause of the contract is true of the
+// concrete arguments.
+func (e *Engine) preconditionsHold(c *FuncCtx, model map[string]string, work string) bool {
+	for _, cl := range c.contract.clauses("requires") {
+		if v, _ := e.clauseValue(c, cl, model, nil, work); v != "true" {
+			return false
+		}
+	}
+	return true
 }
 
 func (e *Engine) concreteFromGo(c *FuncCtx, lit string, t types.Type) (*Val, bool) {
